@@ -225,6 +225,12 @@ def check(ck):
         for c in node_calls(n):
             if isinstance(c.func, ast.Name) and c.func.id in ("hasattr", "getattr") and len(c.args) >= 2 and dump(c.args[0]) == "obj":
                 uses.append((n, c))
+            elif isinstance(c.func, ast.Name) and c.func.id in ("hasattr", "getattr") and len(c.args) >= 2 and \
+                    dump(c.args[1]) in ("serialize_method", "ignore_attribute") and dump(c.args[0]) != "obj":
+                ck.bad("C20.4", "%s: `%s`" % (where, dump(c)[:50]),
+                       "the configured name `%s` is looked up on `%s` instead of the object being dumped: a serialisation method / ignore list the "
+                       "object itself provides (an instance attribute, a delegating __getattr__) is not consulted" % (dump(c.args[1]), dump(c.args[0])[:30]),
+                       q.loc(fd, n))
     def _kind(n_, e_):
         """what the attribute name is: one of the two configured names, or a member of the object's field set"""
         t_ = prov.origin(g, n_, e_)
